@@ -335,9 +335,11 @@ class BaseDOELibrary(BaseDriverLibrary, Serializable):
         Returns:
             The output value and the Jacobian value.
         """
+        # The samples are not normalized:
+        # they are normalized when the functions expect normalized inputs.
         return self._problem.evaluate_functions(
             design_vector=input_value,
-            preprocess_design_vector=False,
+            preprocess_design_vector=self._normalize_ds,
             design_vector_is_normalized=False,
             output_functions=self.__output_functions,
             jacobian_functions=self.__jacobian_functions,
@@ -358,6 +360,11 @@ class BaseDOELibrary(BaseDriverLibrary, Serializable):
         data, jacobian_data = output_and_jacobian_data
         if jacobian_data:
             for output_name, jacobian in jacobian_data.items():
+                if self._normalize_ds:
+                    # The database stores the derivatives
+                    # with respect to the unnormalized design variables.
+                    jacobian = self._problem.design_space.unnormalize_grad(jacobian)
+
                 data[self._problem.database.get_gradient_name(output_name)] = jacobian
 
         self._problem.database.store(self.samples[index], data)
